@@ -207,7 +207,7 @@ theorem wire_round_trip (P : Prims) (hP : PrimsCorrect P) (s : Suite) (sek svk r
     (hp : ∃ x, unmarshalRaw p = some x)
     (henc : encryptVal P s sek svk Fdo.Gen.Schemas.s_Encrypt0 rnd p = some (t, inner, rest))
     (hsch : tunnelSchema t = some sch) (hraw : marshalS sch inner = some raw)
-    (hconf : conf 10000 maxDepth sch inner = true) (hw : wconf 10000 maxDepth sch inner = true)
+    (hconf : conf (fun _ => true) 10000 maxDepth sch inner = true) (hw : wconf 10000 maxDepth sch inner = true)
     (hlen : raw.length + 16 < 18446744073709551616) :
     decryptWire P s sek svk (encHead 6 t ++ raw) = .ok p :=
   decryptWire_encryptVal P hP s sek svk rnd p t inner rest sch raw hp henc hsch hraw hconf hw hlen
